@@ -497,6 +497,11 @@ impl LiveActor {
         match result {
             Err(ConnectError::RemoteAbort(AbortReason::AlreadySyncing)) => {
                 debug!(?reason, "remote abort, already syncing");
+                // If we did not accept a request from this peer in the meantime, nothing is
+                // running for this peer anymore: free the slot (and follow up on a refused report).
+                if let Some(true) = self.state.connect_declined(&namespace, peer) {
+                    self.sync_with_peer(namespace, peer, SyncReason::Resync);
+                }
             }
             res => {
                 self.on_sync_finished(
